@@ -97,7 +97,7 @@ def nav(v, path):
             return None
         elif v[0] in ("i", "s"):
             if key == "size":
-                v = ["i", str(len(str(v[1]).encode("utf-8")))]
+                v = ["i", str(len(str(v[1])))]
             else:
                 return None
         else:
